@@ -19,6 +19,7 @@ type Fact struct {
 	seq    int
 	t      *Term
 	global bool // unconditional truth about the pre-state or a global (recorded once): never pruned by branch
+	origin string // "kind#label" for facts that come from a contract clause
 }
 
 type QFact struct {
@@ -174,7 +175,7 @@ func (x *fnExec) assume(st *State, t *Term) {
 	if t == True {
 		return
 	}
-	x.facts = append(x.facts, Fact{x.next(), Implies(st.pc, t), false})
+	x.facts = append(x.facts, Fact{x.next(), Implies(st.pc, t), false, ""})
 }
 
 func (x *fnExec) newEpoch(hint string) *epochExpr {
@@ -236,7 +237,7 @@ func (x *fnExec) load(st *State, p Val, t types.Type) Val {
 		t := Not(Eq(v.Fs[0].T, BVU(0, 64)))
 		if !x.wfSeen[t.id] && !containsBVar(t) {
 			x.wfSeen[t.id] = true
-			x.facts = append(x.facts, Fact{x.next(), t, true})
+			x.facts = append(x.facts, Fact{x.next(), t, true, ""})
 		}
 	}
 	return v
@@ -250,7 +251,7 @@ func (x *fnExec) heapWF(st *State, v Val) {
 			t := sliceWF(v)
 			if !x.wfSeen[t.id] && !containsBVar(t) {
 				x.wfSeen[t.id] = true
-				x.facts = append(x.facts, Fact{x.next(), t, true})
+				x.facts = append(x.facts, Fact{x.next(), t, true, ""})
 			}
 		}
 	case VStruct, VTuple:
@@ -312,7 +313,7 @@ func (x *fnExec) store(st *State, p Val, t types.Type, v Val) {
 
 func (x *fnExec) freshRef(st *State, hint string) *Term {
 	r := Fresh(hint, SRef)
-	x.facts = append(x.facts, Fact{x.next(), And(Not(Eq(r, BVU(0, 64))), App("newobj", SBool, r)), false})
+	x.facts = append(x.facts, Fact{x.next(), And(Not(Eq(r, BVU(0, 64))), App("newobj", SBool, r)), false, ""})
 	x.allocs = append(x.allocs, allocRec{r, x.seq})
 	return r
 }
@@ -374,7 +375,7 @@ func (x *fnExec) globalRef(name string) *Term {
 	r := BVU(uint64(id)+1<<20, 64)
 	if !x.wfSeen[-id] {
 		x.wfSeen[-id] = true
-		x.facts = append(x.facts, Fact{x.next(), Not(App("newobj", SBool, r)), true})
+		x.facts = append(x.facts, Fact{x.next(), Not(App("newobj", SBool, r)), true, ""})
 	}
 	return r
 }
@@ -578,6 +579,42 @@ func (x *fnExec) runFunc(fr *frame, st *State) []retEdge {
 		if len(edges) == 0 {
 			continue // unreachable
 		}
+		if fr.depth == 0 && !fr.inline && len(edges) >= 2 && len(edges) <= 6 && fr.loops[b] == nil && onlyPhisAndReturn(b) {
+			// a block that only returns is executed once per incoming path: the postconditions are then checked
+			// path by path, without the nested choices a merged state would put into every term
+			if fr.depth == 0 {
+				x.blkMarks = append(x.blkMarks, blkMark{x.seq + 1, b})
+			}
+			for _, e := range edges {
+				if e.cond == False {
+					continue
+				}
+				cur := e.st.clone()
+				cur.pc = e.cond
+				idx := predIndex(b, e.from)
+				var ret *ssa.Return
+				for _, instr := range b.Instrs {
+					switch t := instr.(type) {
+					case *ssa.Phi:
+						fr.env[t] = x.val(fr, t.Edges[idx])
+					case *ssa.Return:
+						ret = t
+					}
+				}
+				var rv Val
+				if len(ret.Results) == 1 {
+					rv = x.val(fr, ret.Results[0])
+				} else {
+					rv = Val{K: VTuple}
+					for _, r := range ret.Results {
+						rv.Fs = append(rv.Fs, x.val(fr, r))
+					}
+				}
+				x.atReturn(fr, cur, ret, rv)
+				rets = append(rets, retEdge{cur.pc, cur, rv, len(rets), b})
+			}
+			continue
+		}
 		var conds []*Term
 		var sts []*State
 		for _, e := range edges {
@@ -660,6 +697,19 @@ func (x *fnExec) runFunc(fr *frame, st *State) []retEdge {
 		}
 	}
 	return rets
+}
+
+func onlyPhisAndReturn(b *ssa.BasicBlock) bool {
+	for i, instr := range b.Instrs {
+		switch instr.(type) {
+		case *ssa.Phi, *ssa.DebugRef:
+		case *ssa.Return:
+			return i == len(b.Instrs)-1
+		default:
+			return false
+		}
+	}
+	return false
 }
 
 func predIndex(b, from *ssa.BasicBlock) int {
